@@ -43,7 +43,7 @@ FILE_STYLE = [("\r\n", True), ("\n", True), ("\r", True), ("\r\n", False), ("\n"
 def bounds(tier, seed):
     return {"max_files": 3 if tier == "quick" else 5, "pattern_sets_per_file": {str(k): list(v) for k, v in PATSETS.items()}, "engines": sorted(ENGINES),
             "config_formats": ["bumpver.toml", "setup.cfg"], "faults": ["none", "nomatch(file,pattern)", "missing(file)", "undecodable(file)", "directory(file)",
-            "lower-set-version", "no-change-bump", "malformed-set-version", "equal-set-version"], "modes": ["update --dry", "update", "update + commit (fake git)"],
+            "lower-set-version", "no-change-bump", "malformed-set-version", "equal-set-version", "set-version-of-existing-tag (commit mode)"], "modes": ["update --dry", "update", "update + commit (fake git)"],
             "file_styles": "per file: CRLF / LF / CR / CRLF without final newline / LF without final newline, non-ASCII header",
             "orders": "all permutations of the file entries, config entry explicit at every position or implicit"}
 
@@ -189,10 +189,12 @@ def run_chunk(chunk):
         faults.append(("missing", name))
         faults.append(("undecodable", name))
         faults.append(("directory", name))
-    faults += [("lower-set-version",), ("no-change-bump",), ("malformed-set-version",), ("equal-set-version",)]
+    faults += [("lower-set-version",), ("no-change-bump",), ("malformed-set-version",), ("equal-set-version",), ("set-version-of-existing-tag",)]
     for order in itertools.permutations(keys):
         for fault in faults:
             for mode in ("dry", "real", "commit"):
+                if fault == ("set-version-of-existing-tag",) and mode != "commit":
+                    continue  # (without a repository there are no tags: the version is acceptable)
                 run_one(st, engine, fmt, names, npat, order, explicit, fault, mode)
     os.chdir("/")
     return st
@@ -210,6 +212,8 @@ def run_one(st, engine, fmt, names, npat, order, explicit, fault, mode):
         args += ["--set-version", "1.2.x"]
     elif fault == ("equal-set-version",):
         args += ["--set-version", E["old"]]
+    elif fault == ("set-version-of-existing-tag",):
+        args += ["--ignore-vcs-tag", "--set-version", E["new"]]  # 1.2.4 is a tag on another branch
     elif fault == ("no-change-bump",):
         pass  # SemVer without --major/--minor/--patch: nothing changes
     else:
@@ -220,7 +224,7 @@ def run_one(st, engine, fmt, names, npat, order, explicit, fault, mode):
     if mode == "commit":
         os.mkdir(".git")
         args += ["--commit", "--tag-commit", "--push"]
-        fake = fakevcs.install(fakevcs.FakeVCS("git", tags_all=["1.2.1"], status=[]))
+        fake = fakevcs.install(fakevcs.FakeVCS("git", tags_all=["1.2.1"] + ([E["new"]] if fault == ("set-version-of-existing-tag",) else []), tags_merged=["1.2.1"], status=[]))
     try:
         o = world.cli(*args)
     finally:
